@@ -9,13 +9,13 @@
 (* lost, consumes the file exactly, and that what it logged tiles every    *)
 (* frame.                                                                  *)
 (***************************************************************************)
-EXTENDS ChunkFraming, TLC
+EXTENDS ChunkFraming, TLC, IOUtils
 
 LeafTags  == {"AAAA", "BBBB"}
 ContTags  == {"CONT"}
 ContHdr   == 4                      \* fixed header bytes of a container payload
 Sizes     == {0, 3, 8}
-MaxLen    == 48
+MaxLen    == IF IOEnv.VERIF_TIER = "thorough" THEN 64 ELSE 44
 MaxDepth  == 2                      \* containers inside containers once (MOGP / MCNK are depth 1)
 
 VARIABLES fhdrs,    \* the file as far as framing is concerned: offset -> [tag, size] of a header written there
